@@ -46,6 +46,7 @@ type prattModel struct {
 	LoopOp    token.Token   // LEQ or LSS: minPrec OP prec(current)
 	LoopPos   token.Pos
 	LoopIf    *ssa.If
+	LoopBody  *ssa.BasicBlock // the successor of the loop test that stays in the loop
 	Rbp       map[*ssa.Function]rbp
 	Problems  []string
 	PrecNames map[int64]string
@@ -214,7 +215,14 @@ func extractPratt(p *Program) *prattModel {
 		if !ok || !sf.Is("parseRule", "prec") {
 			return false
 		}
-		call, _ := callOf(sf.Base)
+		base := sf.Base
+		// the rule may have been copied into a local first (`r := p.rule(tag); … r.prec`)
+		if al, ok := base.(*ssa.Alloc); ok {
+			if w := uniqueWholeStore(al); w != nil {
+				base = w
+			}
+		}
+		call, _ := callOf(base)
 		if call == nil || !staticCalleeIs(call, "(*lang.Parser).rule") {
 			return false
 		}
@@ -253,8 +261,29 @@ func extractPratt(p *Program) *prattModel {
 		default:
 			return
 		}
-		// must be a loop header: the block is reachable from its own true successor
-		if !reachableFrom([]*ssa.BasicBlock{ifi.Block().Succs[0]}, nil)[ifi.Block()] {
+		// must be the loop test: the block is reachable from one of its successors (the body) and
+		// not from the other (the exit). When the body is the false successor (`if minPrec > prec { break }`)
+		// the loop continues under the negated comparison.
+		inCycle := func(s *ssa.BasicBlock) bool {
+			return reachableFrom([]*ssa.BasicBlock{s}, nil)[ifi.Block()]
+		}
+		t, f := inCycle(ifi.Block().Succs[0]), inCycle(ifi.Block().Succs[1])
+		switch {
+		case t && !f:
+			m.LoopBody = ifi.Block().Succs[0]
+		case f && !t:
+			m.LoopBody = ifi.Block().Succs[1]
+			switch op {
+			case token.GTR:
+				op = token.LEQ
+			case token.GEQ:
+				op = token.LSS
+			case token.LSS:
+				op = token.GEQ
+			case token.LEQ:
+				op = token.GTR
+			}
+		default:
 			return
 		}
 		found++
